@@ -337,6 +337,16 @@ def generate(rng, mode=None):
     return mode, src
 
 
+def zoo_programs():
+    """one small program per entry of the expression and statement zoos (each entry once, whatever the random programs drew)"""
+    pre = HEADER + "\ndef nada_main():\n    p0 = Party(name=\"P0\")\n    x0 = SecretInteger(Input(\"x0\", p0))\n    k = Integer(5)\n    l = [x0]\n"
+    post = "    return [Output(x0, name=\"o0\", party=p0)]\n"
+    for e in EXPR_ZOO:
+        yield pre + f"    t = {e}\n    u = sum([{e}])\n" + post
+    for st in STMT_ZOO:
+        yield pre + "\n".join(indent([st])) + "\n" + post
+
+
 def node_classes(src):
     try:
         return {type(n).__name__ for n in ast.walk(ast.parse(src))}
